@@ -24,9 +24,13 @@ open Klev.Conc
 /-- The locking discipline of the current source (go/ast, regenerated on every run, following
 the statement structure): every read call runs as a whole under the segment-list read lock and
 touches the list only there; every access to the writer in Publish/Delete happens with the
-writer lock held; the rollover swaps the segment list under the write lock. -/
+writer lock held (also in NextOffset and Sync, where the fsync and the reported offset share one
+critical section); the rollover swaps the segment list under the write lock; ConsumeByKey reads the
+head's next offset once and before its keys (the head's index grows under the writer lock, not the
+read lock: the order is what makes the two reads one linearizable answer). -/
 theorem source_facts :
-    Gen.readRegionLocked = true ∧ Gen.writerGuarded = true ∧ Gen.rolloverSwapUnderLock = true := by
+    Gen.readRegionLocked = true ∧ Gen.writerGuarded = true ∧ Gen.syncUnderWriterLock = true ∧
+    Gen.rolloverSwapUnderLock = true ∧ Gen.consumeByKeyNextFirst = true := by
   decide
 
 /-- **Linearizability of the lock discipline, for every schedule**: the commit log is a legal
